@@ -53,6 +53,12 @@ Definition row_model (kind : nat) (ps : list Qc) (nv : Qc) (r : list Qc) : list 
   | 20 => [sqabsloss_code (sqabs_alpha (p 0) (x 1) (p 1)) nv (x 3) (x 0)]
   | 21 => pair_list (csqabsloss_code (sqabs_alpha (p 0) (x 2) (p 1)) nv (x 4) (x 0, x 1))
   | 22 => map (svt_code (p 0)) r
+  (* generic Loss(y, f, scale) over a NON-EVEN f: f.prox(v - y, scale*lam) + y.
+     rows [v; y] (23), [v; y; proj(v - y)] (24, 25), [v; y; y2] (26) *)
+  | 23 => [loss_code (fun _ => nonneg_code) (p 0) (x 1) (p 1) (x 0)]
+  | 24 => [loss_code (fun l z => sd_code l nv (x 2) z) (p 0) (x 1) (p 1) (x 0)]
+  | 25 => [loss_code (fun l z => ssd_code l (x 2) z) (p 0) (x 1) (p 1) (x 0)]
+  | 26 => [loss_code (loss_code (fun _ => nonneg_code) (p 2) (x 2)) (p 0) (x 1) (p 1) (x 0)]
   | _ => []
   end.
 
@@ -62,6 +68,7 @@ Definition row_norm_src (kind : nat) (r : list Qc) : option (list Qc) :=
   match kind with
   | 1 | 2 | 5 | 6 | 7 | 9 => Some r
   | 12 => let a := x 0 in let b := x 1 in Some [(a - b)%Qc]
+  | 24 => let a := x 0 in let b := x 1 in let c := x 2 in Some [(a - b - c)%Qc]
   | 18 | 20 => Some [x 0]
   | 19 | 21 => Some [x 0; x 1]
   | _ => None
@@ -85,7 +92,7 @@ Definition row_side (kind : nat) (ps : list Qc) (nv : Qc) (r : list Qc) : bool :
   end.
 
 Definition exact_kind (kind : nat) : bool :=
-  match kind with 0 | 2 | 3 | 8 | 11 | 14 => true | _ => false end.
+  match kind with 0 | 2 | 3 | 8 | 11 | 14 | 23 | 26 => true | _ => false end.
 
 Fixpoint outs_ok (exact : bool) (m : list Qc) (o : list Q) : bool :=
   match m, o with
@@ -100,7 +107,7 @@ Definition group := (Qc * list (list Qc * list Q))%type.
 Definition group_norm_ok (kind : nat) (g : group) : bool :=
   let '(nv, rows) := g in
   match kind with
-  | 5 | 6 | 7 | 9 | 12 =>     (* one norm for the whole group *)
+  | 5 | 6 | 7 | 9 | 12 | 24 =>     (* one norm for the whole group *)
       let src := flat_map (fun r => match row_norm_src kind (fst r) with Some l => l | None => [] end) rows in
       norm_ok nv (sumsq src)
   | _ =>                            (* one norm per row (the group has one row) or none *)
